@@ -117,6 +117,8 @@ def gen_case(rng, mode='2d', nb=None, nm=None, flags=None, hostile=False, fmt=No
                 case['flux'][m][j] = fl
     if fmt is None and rng.random() < 0.3:       # drawn last, so that the rest of the case does not depend on it
         case['fmt'] = 'v2'
+    if nm > 1 and rng.random() < 0.25:
+        case['band_orders'] = [rng.sample(list(range(nm)), nm) for _ in range(nb)]
     return case
 
 
@@ -142,13 +144,18 @@ def write_pkg(d, case, order=None):
     order = list(range(nm)) if order is None else order
     names = np.array([case['names'][i] for i in order], dtype='S30')
     for j, w in enumerate(case['wav']):
+        # the convolved files of a package need not list the models in the same order (they may have been made at different times):
+        # band j lists them in its own order when the case says so; the first band keeps the package order
+        bo = case.get('band_orders')
+        oj = [order[t] for t in bo[j]] if bo and j > 0 else order
+        names_j = np.array([case['names'][i] for i in oj], dtype='S30')
         if case['mode'] == '2d':
-            flux = np.array([[case['flux'][i][j]] for i in order], dtype=float)
+            flux = np.array([[case['flux'][i][j]] for i in oj], dtype=float)
             aps = None
         else:
-            flux = np.array([case['flux'][i][j] for i in order], dtype=float)
+            flux = np.array([case['flux'][i][j] for i in oj], dtype=float)
             aps = np.array(case['aps'][j], dtype=float) * u.au
-        c = ConvolvedFluxes(wavelength=w * u.micron, model_names=names, apertures=aps, flux=flux * u.mJy, error=flux * 0.0 * u.mJy)
+        c = ConvolvedFluxes(wavelength=w * u.micron, model_names=names_j, apertures=aps, flux=flux * u.mJy, error=flux * 0.0 * u.mJy)
         c.write(os.path.join(d, 'convolved', 'F%d.fits' % j))
     if case.get('fmt') == 'v2':
         # version-2 package: Models.read also wants the flux cube (only its model list is used when every filter is a named one)
